@@ -1,6 +1,7 @@
 import Cirbo.Proofs.Connect
 import Cirbo.Model.Miter
 import Cirbo.Proofs.MiterFull
+import Cirbo.Proofs.MiterTotal
 /-!
 # C13 — A miter is true exactly where the two circuits differ
 
@@ -9,7 +10,8 @@ import Cirbo.Proofs.MiterFull
 -- OBLIGATION: c13_shape_error
 -- OBLIGATION: c13_miter_correct
 -- OBLIGATION: c13_miter_true_iff_operands_differ
--- PARTIAL: the end-to-end theorem is proved for well-formed operands and non-empty block names (the defaults are "circuit_left" / "circuit_right"), as partial correctness (whenever build_miter returns); that it does return on operands of equal shape and "operands unmodified" are decided by the correspondence (the model composes the miter exactly as the code does: add_circuit + connect_circuit + generate_pairwise_xor + connect_circuit + final gate).
+-- OBLIGATION: c13_build_miter_returns
+-- PARTIAL: every clause has a theorem on the model: the end-to-end theorem for well-formed operands and non-empty block names (whenever build_miter returns), the shape error, and that it DOES return on operands of equal shape with the default block names (c13_build_miter_returns: each of the three connections meets the preconditions of the left-connection totality theorem — copy labels and block names stay apart because the prefixes circuit_left@ / circuit_right@ / pairwise_xor@ differ in a fixed position, generate_pairwise_xor's labels are pairwise distinct by injectivity of the decimal representation). 'Building it leaves both operands unmodified' is decided by the correspondence (Lean values cannot alias; the harness compares the operands before and after).
 -/
 namespace Cirbo
 open GateType Circuit
@@ -109,10 +111,19 @@ theorem c13_miter_true_iff_operands_differ {left right m : Circuit} {ln rn : Lab
     rw [hconn, hinR, him, List.map_map]
   rw [hiff hn, mapOut hwl (eqOn hwl h0 hL inL), mapOut hwr (eqOn hwr h1 hR inR)]
 
+/-- **`build_miter` returns** on any two operands of equal shape that satisfy the invariant, have distinct
+block names and block outputs that exist — with the default block names `circuit_left` /
+`circuit_right` (any names meeting `MiterNames` do) -/
+theorem c13_build_miter_returns {left right : Circuit} (hL : MiterOperand left) (hR : MiterOperand right)
+    (hi : left.inputs.length = right.inputs.length) (ho : left.outputs.length = right.outputs.length) :
+    ∃ m, buildMiter left right "circuit_left" "circuit_right" = .ok m :=
+  buildMiter_total miterNames_default hL hR hi ho
+
 #print axioms c13_comparison_stage
 #print axioms c13_operands_keep_their_function
 #print axioms c13_shape_error
 #print axioms c13_miter_correct
 #print axioms c13_miter_true_iff_operands_differ
+#print axioms c13_build_miter_returns
 
 end Cirbo
